@@ -31,14 +31,15 @@ FINISH = dict(
         "config_load (real from_file + MainEventLoop::new), c14_defaults",
         "this harness's resolution of include patterns on the directory it created (fnmatch over sorted "
         "names, os.path.realpath) and its TOML emitter (py/cfggen.py)",
-        "modelled, not verified: toml/serde decoding, the glob crate and canonicalize (their results are "
-        "inputs of the model), the meaning of option values (durations are normalised to seconds by the "
+        "modelled, not verified: toml/serde decoding and canonicalize (their results are inputs of Model/Config; the "
+        "glob crate's matching and directory walk are modelled in Model/Glob and tied to the real get_cnf_path by "
+        "py/ext/globinc.py, its directory I/O is trusted), the meaning of option values (durations are normalised to seconds by the "
         "model of parse_duration, Model/Period.lean, proved in C19)",
     ],
     rule="(1) exhaustive presence patterns: for renew_delay, random_early_renew, file_name_format all 2^3 "
          "certificate/endpoint/global patterns, for the directory all 2^2, each also without any [global] "
          "table, distinct values per level, plus the product of the four patterns; (2) trees on disk: "
-         "[global] split over main and included files for each of the 15 options in 7 shapes; files "
+         "[global] split over main and included files for each of the 15 options in 13 shapes (incl. globs through directories and file-name orderings); files "
          "included twice through different spellings (./, dir/.., absolute, symbolic link, glob + literal); "
          "self/2/3-cycles; random trees (depth <= 3, relative/absolute paths, globs inc/*.toml and "
          "conf.d/??_*.toml, links, sections and [global] spread over reachable and unreachable files, env "
